@@ -68,10 +68,12 @@ theorem C05_nocopy_within (d : α) (st : Store α) (ops : List View) (p : Prog) 
 
 /-- Every entry of the operation table (constructors with and without copying, `copy`,
 `permute`, `reshape`, `squeeze`, conversions, `find`, Kruskal in-place operations, the four
-`__setitem__`s, the helpers, the algorithm entry points, and the generic "computed" entry used
-for every other public method) passes the static check of its specification, for all
-parameters – identity permutations, size-preserving reshapes, `copy=False`, any number of
-factor matrices – and every operand list that satisfies the entry's precondition. -/
+`__setitem__`s, the helpers, the algorithm entry points, the step-level entries of `tenmat`,
+`sptenmat`, `ttensor`, `sumtensor` and the remaining `ktensor` methods (part 4), and the generic
+"computed" entry used for every other public method) passes the static check of its
+specification, for all parameters – identity permutations, size-preserving reshapes,
+`copy=False`, real or complex data, any number of factor matrices, any list of parts of a sum
+tensor – and every operand list that satisfies the entry's precondition. -/
 theorem C05_table_sound : ∀ e ∈ table, ∀ (p : Params) (ops : List View), e.check p ops = true :=
   table_sound
 
@@ -156,14 +158,14 @@ theorem C05_construction (d : α) (st : Store α) (ops : List View) (p : Params)
       SpecSem d st ops (ktensor_init p ops) (noCopyIf (List.range (p.n + 1)) p)) ∧
     (p.k + p.n ≤ ops.length →
       SpecSem d st ops (ttensor_init p ops) (noCopyIf (List.range (p.k + p.n)) p)) ∧
-    (1 ≤ ops.length → SpecSem d st ops (tenmat_init p ops) (noCopyIf [0] p)) ∧
-    (2 ≤ ops.length → SpecSem d st ops (sptenmat_init p ops) (noCopyIf [0, 1] p)) :=
+    (1 ≤ ops.length → SpecSem d st ops (tenmat_init2 p ops) (noCopyIf [0] p)) ∧
+    (2 ≤ ops.length → SpecSem d st ops (sptenmat_init2 p ops) (noCopyIf [0, 1] p)) :=
   ⟨fun h => spec_sem d st ops _ _ hv (chk_tensor_init p ops (by simp [atLeast]; omega)),
    fun h => spec_sem d st ops _ _ hv (chk_sptensor_init p ops (by simp [atLeast]; omega)),
    fun h => spec_sem d st ops _ _ hv (chk_ktensor_init p ops h),
    fun h => spec_sem d st ops _ _ hv (chk_ttensor_init p ops h),
-   fun h => spec_sem d st ops _ _ hv (chk_tenmat_init p ops (by simp [atLeast]; omega)),
-   fun h => spec_sem d st ops _ _ hv (chk_sptenmat_init p ops (by simp [atLeast]; omega))⟩
+   fun h => spec_sem d st ops _ _ hv (chk_tenmat_init2 p ops (by simp [flagOr]; omega)),
+   fun h => spec_sem d st ops _ _ hv (chk_sptenmat_init2 p ops (by simp [flagOr]; omega))⟩
 
 /-- `tenmat.to_tensor(copy)`: independent for `copy=True`; for `copy=False` it can share
 storage with the receiver's data only. -/
@@ -239,6 +241,201 @@ theorem C05_sptensor_find_is_alias (d : α) (st : Store α) (subs vals : View) (
     let S := exec d st [subs, vals] (sptensor_find p [subs, vals]).prog
     S.st = st ∧ S.reg 2 = subs ∧ S.reg 3 = vals := by
   simp [sptensor_find, exec, step, State.push, State.reg]
+
+/-! ### matricized tensors (part 4 of the table) -/
+
+/-- `tenmat.ctranspose()` for real / integer / boolean data (`conj()` is the array itself) and for
+complex data, for every matrix shape – 1-row, 1-column and 1×1 matrices, whose transpose is
+F-contiguous, included: the operand is unchanged and the result shares nothing with it. -/
+theorem C05_fresh_tenmat_ctranspose (d : α) (st : Store α) (ops : List View) (p : Params)
+    (hv : ValidOps st ops) : PureFreshSem d st ops (tenmat_ctranspose p ops) :=
+  pureFresh_sem d st ops _ hv (chk_tenmat_ctranspose p ops)
+
+/-- Why `ctranspose` passes `copy=True`: with a real 1-row matrix, `data.conj().T` is the
+receiver's own storage and F-contiguous, so `to_memory_order(.., "F")` alone (a `copy=False`
+variant) would hand it out – the table's program does not. -/
+theorem C05_ctranspose_needs_copy_example :
+    let v : View := ⟨0, 0, [1, 3], [1, 1]⟩
+    (outcome (0 : Int) [bufferFor 0 v] [v] [.alias 0, .tr 1, .asF 2] [3]).share = [(0, 0)] ∧
+    (outcome (0 : Int) [bufferFor 0 v] [v] (tenmat_ctranspose {} [v]).prog
+      ((tenmat_ctranspose {} [v]).res.map (·.2))).share = [] := by decide
+
+/-- `tenmat.copy()` / `__pos__` / `__deepcopy__`, `double()`, `__neg__`, `+`, `-` (either side)
+with a scalar or a tenmat, `*` with a scalar, and `*` with a tenmat (matrix product, incl. the
+scalar case): operands unchanged, every returned array new. -/
+theorem C05_fresh_tenmat_ops (d : α) (st : Store α) (ops : List View) (p : Params)
+    (hv : ValidOps st ops) :
+    PureFreshSem d st ops (tenmat_copy p ops) ∧ PureFreshSem d st ops (tenmat_double p ops) ∧
+    PureFreshSem d st ops (tenmat_arith p ops) ∧ PureFreshSem d st ops (tenmat_matmul p ops) :=
+  ⟨pureFresh_sem d st ops _ hv (chk_tenmat_copy p ops), pureFresh_sem d st ops _ hv (chk_tenmat_double p ops),
+   pureFresh_sem d st ops _ hv (chk_tenmat_arith p ops), pureFresh_sem d st ops _ hv (chk_tenmat_matmul p ops)⟩
+
+/-- `tenmat(data, rdims, cdims, tshape, copy)` for every layout of `data` (F-contiguous: kept
+with `copy=False`; C-ordered or strided: copied whatever the flag; 1-d: copied and reshaped),
+and the empty constructor: with `copy=True` independent of every argument, with `copy=False`
+sharing with `data` only; the mode arrays are always new. -/
+theorem C05_nocopy_tenmat_ctor (d : α) (st : Store α) (ops : List View) (p : Params)
+    (hv : ValidOps st ops) (h : flagOr ["empty"] 1 p ops.length = true) :
+    SpecSem d st ops (tenmat_init2 p ops) (noCopyIf [0] p) :=
+  spec_sem d st ops _ _ hv (chk_tenmat_init2 p ops h)
+
+/-- `sptenmat(subs, vals, rdims, cdims, tshape, copy)` with and without entries / subscripts /
+mode arguments: `copy=True` accumulates into new arrays, `copy=False` keeps `subs` and `vals`
+and nothing else (the mode arrays are new in both cases). -/
+theorem C05_nocopy_sptenmat_ctor (d : α) (st : Store α) (ops : List View) (p : Params)
+    (hv : ValidOps st ops) (h : flagOr ["none", "nosubs"] 2 p ops.length = true) :
+    SpecSem d st ops (sptenmat_init2 p ops) (noCopyIf [0, 1] p) :=
+  spec_sem d st ops _ _ hv (chk_sptenmat_init2 p ops h)
+
+/-- `sptenmat.copy()` / `__pos__` / `__deepcopy__`, `__neg__` (an in-place product – on the
+copy), `from_array` (dense and scipy-sparse sources), `to_sptensor()`, `full()` (a write into
+the new matrix through views of the receiver's arrays): operands unchanged, results new. -/
+theorem C05_fresh_sptenmat_ops (d : α) (st : Store α) (ops : List View) (p : Params)
+    (hv : ValidOps st ops) :
+    PureFreshSem d st ops (sptenmat_copy p ops) ∧ PureFreshSem d st ops (sptenmat_neg p ops) ∧
+    PureFreshSem d st ops (sptenmat_from_array p ops) ∧ PureFreshSem d st ops (sptenmat_to_sptensor p ops) ∧
+    PureFreshSem d st ops (sptenmat_full p ops) :=
+  ⟨pureFresh_sem d st ops _ hv (chk_sptenmat_copy p ops), pureFresh_sem d st ops _ hv (chk_sptenmat_neg p ops),
+   pureFresh_sem d st ops _ hv (chk_sptenmat_from_array p ops),
+   pureFresh_sem d st ops _ hv (chk_sptenmat_to_sptensor p ops),
+   pureFresh_sem d st ops _ hv (chk_sptenmat_full p ops)⟩
+
+/-! ### programs that call programs (Tucker tensors, sum tensors, Kruskal conversions) -/
+
+/-- The static classification is compositional: analysing a callee's program placed in a caller
+(`Built.at`: callee operand `j` = caller register `args[j]`, new registers numbered from the
+caller's first free one) gives the callee's own classification with "inside operand `j`"
+replaced by the caller's classification of `args[j]`. -/
+theorem C05_static_compositional (k : Nat) (args : List Nat) (free : Nat) (ρ0 ω0 : List Root)
+    (hlen : ρ0.length = free) (hargs : ∀ j, j < k → args.getD j 0 < free) (q : Prog) :
+    (q.map (Step.reloc k args free)).foldl staticStep (ρ0, ω0) =
+      (ρ0 ++ ((roots k q).drop k).map (Root.subst ρ0 args),
+       ω0 ++ (writeRoots k q).map (Root.subst ρ0 args)) :=
+  static_at k args free ρ0 ω0 hlen hargs q
+
+/-- … hence a callee that passes the `pureFresh` check keeps doing so wherever it is called and
+whatever registers it is given: it writes only to arrays it allocated and its results are new
+(the rule by which the entries for any number of factor matrices / parts are proved). -/
+theorem C05_call_pureFresh (b : Nat) (W A : List Nat) (free : Nat) (R0 : List Nat) (B : Built) (k : Nat)
+    (args : List Nat) (pre : String) (hB : specCheck .pureFresh k B = true)
+    (hargs : ∀ j, j < k → args.getD j 0 < free) :
+    Blk b W A free R0 (B.at k args free pre).prog ((B.at k args free pre).res.map (·.2)) :=
+  Blk.call B k args pre hB hargs
+
+/-- Tucker tensors with a dense or sparse core (`p.k` = 1 / 2 core arrays) and any number `p.n`
+of factor matrices: `copy()` / `__pos__` / `__deepcopy__`, `full()` / `to_tensor()` /
+`reconstruct()` (a chain of `ttm`s), `double()`, `__neg__` / `__mul__` / `__rmul__`. -/
+theorem C05_fresh_ttensor_ops (d : α) (st : Store α) (ops : List View) (p : Params)
+    (hv : ValidOps st ops) (hk : p.k = 1 ∨ p.k = 2) (hb : p.k + p.n ≤ ops.length) :
+    PureFreshSem d st ops (ttensor_copy p ops) ∧ PureFreshSem d st ops (ttensor_scale p ops) ∧
+    (0 < p.n → PureFreshSem d st ops (ttensor_full p ops) ∧ PureFreshSem d st ops (ttensor_double p ops)) := by
+  have hpre : ttPre (fun _ _ => true) p ops.length = true := by
+    rcases hk with h | h <;> simp [ttPre, h] <;> omega
+  refine ⟨pureFresh_sem d st ops _ hv (chk_ttensor_copy p ops hpre),
+    pureFresh_sem d st ops _ hv (chk_ttensor_scale p ops hpre), fun hN => ?_⟩
+  have hpre2 : ttPre (fun p _ => decide (0 < p.n)) p ops.length = true := by
+    rcases hk with h | h <;> simp [ttPre, h, hN] <;> omega
+  exact ⟨pureFresh_sem d st ops _ hv (chk_ttensor_full p ops hpre2),
+    pureFresh_sem d st ops _ hv (chk_ttensor_double p ops hpre2)⟩
+
+/-- `ttensor.ttm` (any subset of modes, matrices in the operand registers `p.perm`), `ttv` (any
+subset; a scalar, a Tucker tensor with a dense or with a sparse new core), `mttkrp`: operands –
+matrices and vectors included – unchanged, results new. -/
+theorem C05_fresh_ttensor_products (d : α) (st : Store α) (ops : List View) (p : Params)
+    (hv : ValidOps st ops) (hk : p.k = 1 ∨ p.k = 2) (hb : p.k + p.n ≤ ops.length)
+    (hperm : ∀ r ∈ p.perm, r < ops.length) :
+    PureFreshSem d st ops (ttensor_ttm p ops) ∧ PureFreshSem d st ops (ttensor_ttv p ops) ∧
+    (p.dims.getD 0 0 < p.n → PureFreshSem d st ops (ttensor_mttkrp p ops)) := by
+  have hpre : ttPre (regsBelow (·.perm)) p ops.length = true := by
+    have : regsBelow (·.perm) p ops.length = true := by
+      simp only [regsBelow, List.all_eq_true, decide_eq_true_eq]; exact hperm
+    rcases hk with h | h <;> simp [ttPre, h, this] <;> omega
+  refine ⟨pureFresh_sem d st ops _ hv (chk_ttensor_ttm p ops hpre),
+    pureFresh_sem d st ops _ hv (chk_ttensor_ttv p ops hpre), fun hd => ?_⟩
+  have hpre2 : ttPre (fun p _ => decide (p.dims.getD 0 0 < p.n)) p ops.length = true := by
+    have hd' : decide (p.dims.getD 0 0 < p.n) = true := by simpa using hd
+    simp only [ttPre, Bool.and_eq_true, Bool.or_eq_true, beq_iff_eq, decide_eq_true_eq]
+    exact ⟨⟨hk, hb⟩, by simpa using hd⟩
+  exact pureFresh_sem d st ops _ hv (chk_ttensor_mttkrp p ops hpre2)
+
+/-- `ttensor.permute(order)` for every order (the identity included) and `reconstruct(samples,
+modes)` (kept and sampled modes in any combination). -/
+theorem C05_fresh_ttensor_permute_reconstruct (d : α) (st : Store α) (ops : List View) (p : Params)
+    (hv : ValidOps st ops) (hk : p.k = 1 ∨ p.k = 2) (hb : p.k + p.n ≤ ops.length) :
+    ((∀ r ∈ p.perm, p.k + r < ops.length) → PureFreshSem d st ops (ttensor_permute p ops)) ∧
+    ((∀ r ∈ p.perm, r < ops.length) → 0 < p.n → PureFreshSem d st ops (ttensor_reconstruct p ops)) := by
+  constructor
+  · intro hperm
+    have : regsBelow (fun p => p.perm.map (p.k + ·)) p ops.length = true := by
+      simp only [regsBelow, List.all_eq_true, decide_eq_true_eq]
+      intro r hr; obtain ⟨x, hx, rfl⟩ := List.mem_map.mp hr; exact hperm x hx
+    have hpre : ttPre (regsBelow (fun p => p.perm.map (p.k + ·))) p ops.length = true := by
+      rcases hk with h | h <;> simp [ttPre, h, this] <;> omega
+    exact pureFresh_sem d st ops _ hv (chk_ttensor_permute p ops hpre)
+  · intro hperm hN
+    have : regsBelow (·.perm) p ops.length = true := by
+      simp only [regsBelow, List.all_eq_true, decide_eq_true_eq]; exact hperm
+    have hpre : ttPre (fun p b => regsBelow (·.perm) p b && decide (0 < p.n)) p ops.length = true := by
+      rcases hk with h | h <;> simp [ttPre, h, this, hN] <;> omega
+    exact pureFresh_sem d st ops _ hv (chk_ttensor_reconstruct p ops hpre)
+
+/-- Sum tensors over ANY list of parts (`p.kinds`: dense, sparse, Kruskal, Tucker with a dense or
+a sparse core, in any order and multiplicity): construction with copying, `copy()` / `__pos__` /
+`__deepcopy__`, `__add__` / `__radd__` (the receiver's parts and the added tensors, all
+copied), `__neg__`, `innerprod`, `mttkrp` (the in-place `+=` goes into the first, new, result),
+`ttv` (any mode subset; per part a dense, sparse, Kruskal or Tucker result). -/
+theorem C05_fresh_sumtensor_ops (d : α) (st : Store α) (ops : List View) (p : Params)
+    (hv : ValidOps st ops) (hb : partTotal p.n p.kinds ≤ ops.length) :
+    PureFreshSem d st ops (sumtensor_copy p ops) ∧ PureFreshSem d st ops (sumtensor_neg p ops) ∧
+    PureFreshSem d st ops (sumtensor_innerprod p ops) ∧ PureFreshSem d st ops (sumtensor_mttkrp p ops) ∧
+    (partTotal p.n p.kinds + p.dims.length ≤ ops.length → PureFreshSem d st ops (sumtensor_ttv p ops)) := by
+  have hpre : sumPre (fun _ => 0) p ops.length = true := by simp [sumPre]; exact hb
+  refine ⟨pureFresh_sem d st ops _ hv (chk_sumtensor_copy p ops hpre),
+    pureFresh_sem d st ops _ hv (chk_sumtensor_neg p ops hpre),
+    pureFresh_sem d st ops _ hv (chk_sumtensor_innerprod p ops hpre),
+    pureFresh_sem d st ops _ hv (chk_sumtensor_mttkrp p ops hpre), fun h => ?_⟩
+  exact pureFresh_sem d st ops _ hv (chk_sumtensor_ttv p ops (by simp [sumPre]; exact h))
+
+/-- `sumtensor.full()` / `to_tensor()` / `double()` for any non-empty list of parts: `full()` of
+the first part, then one new sum per further part (a dense part is added as it is). -/
+theorem C05_fresh_sumtensor_full (d : α) (st : Store α) (ops : List View) (p : Params)
+    (hv : ValidOps st ops) (hb : partTotal p.n p.kinds ≤ ops.length) (hk : p.kinds ≠ []) (hN : 0 < p.n) :
+    PureFreshSem d st ops (sumtensor_full p ops) ∧ PureFreshSem d st ops (sumtensor_double p ops) := by
+  have hpre : sumFullPre p ops.length = true := by
+    have : p.kinds.isEmpty = false := by cases hc : p.kinds <;> simp_all
+    simp [sumFullPre, sumPre, this, hN]; exact hb
+  exact ⟨pureFresh_sem d st ops _ hv (chk_sumtensor_full p ops hpre),
+    pureFresh_sem d st ops _ hv (chk_sumtensor_double p ops hpre)⟩
+
+/-- `sumtensor(parts, copy=False)` (documented no-copy): the parts are kept – every array of the
+result IS the caller's, nothing else is touched. -/
+theorem C05_nocopy_sumtensor_ctor (d : α) (st : Store α) (ops : List View) (p : Params)
+    (hv : ValidOps st ops) (h : p.m ≤ ops.length) :
+    SpecSem d st ops (alias_all p ops) (.noCopy (List.range p.m)) :=
+  spec_sem d st ops _ _ hv (chk_alias_all p ops h)
+
+/-- The remaining Kruskal operations, for any number of factor matrices: `extract`, `__neg__` /
+`__mul__` / `__rmul__`, `__add__` / `__sub__`, `double`, `to_tenmat` (`full()` then
+`tensor.to_tenmat`, every mode split, both copy flags), `tovec`, `mask` (dense and sparse
+masks), `tolist(mode)`, `mttkrp`. -/
+theorem C05_fresh_ktensor_more (d : α) (st : Store α) (ops : List View) (p : Params)
+    (hv : ValidOps st ops) (hn : p.n + 2 ≤ ops.length) (hk : p.k < p.n) :
+    PureFreshSem d st ops (ktensor_extract p ops) ∧ PureFreshSem d st ops (ktensor_scale p ops) ∧
+    PureFreshSem d st ops (ktensor_addsub p ops) ∧ PureFreshSem d st ops (ktensor_double p ops) ∧
+    PureFreshSem d st ops (ktensor_to_tenmat p ops) ∧ PureFreshSem d st ops (ktensor_tovec p ops) ∧
+    PureFreshSem d st ops (ktensor_mask p ops) ∧ PureFreshSem d st ops (ktensor_tolist_mode p ops) ∧
+    PureFreshSem d st ops (ktensor_mttkrp p ops) := by
+  have h1 : atLeastN 1 p ops.length = true := by simp [atLeastN]; omega
+  have h2 : atLeastN 2 p ops.length = true := by simp [atLeastN]; omega
+  exact ⟨pureFresh_sem d st ops _ hv (chk_ktensor_extract p ops h1),
+    pureFresh_sem d st ops _ hv (chk_ktensor_scale p ops h1),
+    pureFresh_sem d st ops _ hv (chk_ktensor_addsub p ops h1),
+    pureFresh_sem d st ops _ hv (chk_ktensor_double p ops h1),
+    pureFresh_sem d st ops _ hv (chk_ktensor_to_tenmat p ops h1),
+    pureFresh_sem d st ops _ hv (chk_ktensor_tovec p ops),
+    pureFresh_sem d st ops _ hv (chk_ktensor_mask p ops h2),
+    pureFresh_sem d st ops _ hv (chk_ktensor_tolist_mode p ops (by simpa using hk)),
+    pureFresh_sem d st ops _ hv (chk_ktensor_mttkrp p ops)⟩
 
 /-! ### when is a NumPy call a view? -/
 
@@ -326,5 +523,17 @@ example : ValidOps [[1, 2, 3, 4, 5, 6]] [(⟨0, 0, [2, 3], [1, 2]⟩ : View)] :=
 example : (exec (0 : Int) [[1, 2, 3, 4, 5, 6]] [⟨0, 0, [2, 3], [1, 2]⟩]
     (tensor_permute { perm := [1, 0], shape := [3, 2] } [⟨0, 0, [2, 3], [1, 2]⟩]).prog).st =
     [[1, 2, 3, 4, 5, 6], [1, 3, 5, 2, 4, 6]] := by decide
+
+/-- a sum tensor with a dense, a sparse, a Kruskal and two Tucker parts of order 3 fits 17 operand
+arrays; a Tucker receiver with a sparse core and three factor matrices five -/
+example : partTotal 3 [0, 1, 2, 3, 4] ≤ 17 ∧
+    ttPre (fun p _ => decide (0 < p.n)) { k := 2, n := 3 } 5 = true := by decide
+
+/-- the composite programs run: `ttensor.full()` with a dense 2×2 core and 3×2, 2×2 factors ends
+in a new buffer -/
+example :
+    let ops : List View := [⟨0, 0, [2, 2], [1, 2]⟩, ⟨1, 0, [3, 2], [1, 3]⟩, ⟨2, 0, [2, 2], [1, 2]⟩]
+    (outcome (0 : Int) (ops.map (bufferFor 0)) ops (ttensor_full { k := 1, n := 2 } ops).prog
+      ((ttensor_full { k := 1, n := 2 } ops).res.map (·.2))) = ⟨[], []⟩ := by decide
 
 end Pyttb
